@@ -15,4 +15,9 @@ ocamlfind ocamlopt -O2 -package zarith -linkpkg qco_model.mli qco_model.ml drive
 cd ../harness
 [ -f Cargo.lock ] || cp /repo/Cargo.lock .
 cargo build --offline 2>&1 | tail -2
+cargo build --offline --release 2>&1 | tail -1
+cd ../clitool
+[ -f Cargo.lock ] || cp /repo/Cargo.lock .
+cargo build --offline --release --target-dir ../harness/target_cli 2>&1 | tail -1
+(cd /repo && cargo build --offline --release -p q_compress_cli --target-dir /verif/harness/target_cli 2>&1 | tail -1)
 echo "setup done"
